@@ -300,8 +300,18 @@ def retire_wiring(P, R, rule='C10.WIRE.6'):
             from_dispatch = s.fn.key == rd.key
             from_verdict = s.fn.key in V
             withdraws = ord('D') in letters and ord('T') not in letters
-            ok = from_dispatch or (from_verdict and not withdraws)
-            R.ob(rule, ok, s, '%s is called from the dispatch%s only (caller: %s)' % (h.name, '' if withdraws else ' and from the verdict functions', s.fn.name), key='retire-caller:%s' % h.name)
+            # the server using an id again withdraws its previous holder: the announcement handler may hand what it finds
+            # under the announced id - and nothing else - to the withdrawing handler
+            from_announce = False
+            if withdraws and any(hh is s.fn and vs and ord('C') in vs for (_, hh, vs) in disp) and s.ev['args'] and is_var(s.ev['args'][0]):
+                v, idp = s.ev['args'][0]['name'], (s.fn.params[0] if s.fn.params else None)
+                defs = [d for d in s.fn.local_defs(v) if (d.bid, d.idx) < (s.bid, s.idx) or d.bid != s.bid]
+                look = [d for d in s.fn.local_defs(v) if ((d.ev.get('rhs') if d.ev['k'] == 'store' else d.ev.get('init')) or {}).get('callee') == 'set_find']
+                from_announce = bool(look) and all(any(c.ev['args'] and is_var(c.ev['args'][0], uar.TABLE) and len(c.ev['args']) > 1 and any(is_var(x, idp) for x in walk(c.ev['args'][1]))
+                                                       for c in s.fn.calls('set_find') if c.bid == d.bid) for d in look) \
+                    and any(g[1] == '!=' and is_var(g[0], v) and const_of(g[2]) == 0 for g in s.fn.guards(s.bid))
+            ok = from_dispatch or (from_verdict and not withdraws) or from_announce
+            R.ob(rule, ok, s, '%s is called from the dispatch%s only%s (caller: %s)' % (h.name, '' if withdraws else ' and from the verdict functions', ', or by the announcement handler for the previous holder of the announced id' if withdraws else '', s.fn.name), key='retire-caller:%s' % h.name)
     R.floor(rule, 4)
 
 
